@@ -450,6 +450,11 @@ def check_matrix(acc, X, only=None):
     for T in transforms(p):
         if only is not None and list(only) != core.jsonable(T):
             continue
+        if T[0] == "shift" and float(np.max(np.abs(X))) < 1e-3:
+            # a shift 1e5 times the spread is not "of moderate size" (the variance from prefix sums then loses
+            # (offset/spread)^2 * eps of relative precision): the small-magnitude space is for scaling only
+            acc.count("shift_skipped_on_small_magnitude_space")
+            continue
         acc.ev()
         case = {"x": X.tolist(), "T": core.jsonable(T)}
         Xt = apply(X, T)
@@ -482,6 +487,9 @@ def spaces(tier, seed):
     out += [((0, 3), n, 3) for n in range(2, (3 if q else 4) + 1)]
     if not q:
         out += [(s3, 3, 3)]
+    # small-magnitude data (standard deviations around 1e-5..1e-4, far above the documented 1e-16 variance floor):
+    # moderate scale factors must not move anything across a floor
+    out += [(tuple(3e-5 * x for x in s3), n, 1) for n in range(2, (5 if q else 6) + 1)]
     return out
 
 
